@@ -9,7 +9,7 @@ Rec == ndJsonDeserialize(IOEnv.TRACE)
 VARIABLE l
 Init == l = 1
 CoverOK(C, S) == /\ CompleteSym(C) /\ Connected(C) /\ C.n % S.n = 0
-                 /\ IsCovering(C, S, StdProj(C, S))
+                 /\ IsCoverOf(C, S)
 OrientedCoverOK(e) ==
    /\ CoverOK(e.out, e.in) /\ Oriented(e.out)
    /\ e.out.n = (IF Oriented(e.in) THEN 1 ELSE 2) * e.in.n
